@@ -176,15 +176,28 @@ def cpair(a, b):
     return f"({a}, {b})"
 
 
-def run_case_file(name, imports, defs, exprs, timeout=900):
+_BIGNAT = re.compile(r"(?<![\w.])(\d{3,})(?![\w.]|\)%[ZN]|%)")
+
+
+def compact_nats(expr, defs):
+    """nat literals below 5000 are expanded by Coq's parser into unary S (S ...) terms: a case that mentions array / op ids in
+    the thousands (long-running workers) takes 10-30 s just to elaborate.  Outside Z_scope every bare literal >= 200 is
+    written as (N.to_nat n%N) instead: a binary literal, converted by vm_compute.  Z literals are always printed as (n)%Z by
+    cZ and are left alone."""
+    if defs and "Z_scope" in defs:
+        return expr
+    return _BIGNAT.sub(lambda m: m.group(0) if int(m.group(1)) < 200 else f"(N.to_nat {m.group(1)}%N)", expr)
+
+
+def run_case_file(name, imports, defs, exprs, timeout=1800):
     """exprs: list of Coq bool terms. Returns (failing index list, raw output, ok)."""
     BUILD.mkdir(exist_ok=True)
     d = CASES
     d.mkdir(parents=True, exist_ok=True)
     path = d / f"{name}.v"
-    body = [f"From CubedV Require Import {imports}.", 'Set Warnings "-abstract-large-number".', "Open Scope nat_scope.", defs or ""]
+    body = ["From Coq Require Import NArith.", f"From CubedV Require Import {imports}.", 'Set Warnings "-abstract-large-number".', "Open Scope nat_scope.", defs or ""]
     for i, e in enumerate(exprs):
-        body.append(f"Definition case_{i} : bool := {e}.")
+        body.append(f"Definition case_{i} : bool := {compact_nats(e, defs)}.")
     body.append("Definition all_cases : list bool := [" + "; ".join(f"case_{i}" for i in range(len(exprs))) + "].")
     body.append("Eval vm_compute in (failing all_cases).")
     path.write_text("\n".join(body) + "\n")
@@ -215,7 +228,7 @@ def coq_eval(name, imports, defs, expr, timeout=300):
     d.mkdir(parents=True, exist_ok=True)
     path = d / f"{name}.v"
     path.write_text(
-        f"From CubedV Require Import {imports}.\nSet Warnings \"-abstract-large-number\".\nOpen Scope nat_scope.\n{defs or ''}\nEval vm_compute in ({expr}).\n"
+        f"From Coq Require Import NArith.\nFrom CubedV Require Import {imports}.\nSet Warnings \"-abstract-large-number\".\nOpen Scope nat_scope.\n{defs or ''}\nEval vm_compute in ({compact_nats(expr, defs)}).\n"
     )
     rc, out = _run(["timeout", str(timeout), "coqc", "-noglob", "-Q", str(COQ), "CubedV", str(path)], cwd=d, timeout=timeout + 30)
     for ext in (".vo", ".vok", ".vos", ".glob"):
